@@ -17,6 +17,14 @@ CHECKS = {
          "Exploration. All 19x19 binary operator nestings on either side, all prefix x binary / prefix x prefix combinations (each printed with the minimal parentheses the DOCUMENTED precedence requires and fully parenthesised) with well-typed operands and one ill-typed operand of every other kind per slot are enumerated completely; random type-directed trees to depth 6 add redundant parentheses, layout and keyword-case variation. Two oracles: the tree ECAL parsed must equal the generated tree (precedence/associativity independent of values) and Eval must equal the harness's own evaluator (bit-exact floats) or fail with the documented error kind naming the operand. Behaviour the references leave open (cross-kind ordering/equality, %, / by zero, short-circuit over a failing operand) is discarded and counted.",
          "Relative to internal/lang (the harness's reading of ecal.md and the property text; shares no code with /repo). Depth beyond 6 and operands outside the fixed universe are not explored.",
          "DESIGN.md 4/C03"),
+ "C04": ("rapid-generated control-flow programs + exhaustive try/exit matrix, compared with a reference interpreter (observation trace and escaping error)",
+         "Exploration. Programs over if/elif/else, all four loop forms, break/continue/return, functions and try with every clause shape are generated (nesting <= 4, <= 40 statements) with an observation (t.rec) before and after every construct; the ordered trace, and the type/detail/data of an escaping error, must equal what the harness's reference interpreter predicts. The product exit kind (7) x except shape (9) x otherwise x finally x enclosing construct (4) is enumerated completely in both tiers. The reference is run under all 32 combinations of the choices the documentation leaves open (block-scope persistence, loop-scope freshness, where loop/except/func names are bound); a program is only judged if all agree.",
+         "Relative to internal/lang (reading of ecal.md + property text). Errors raised inside finally, otherwise after a control exit, non-boolean guards and the value of a call without return are treated as unspecified and discarded (counted).",
+         "DESIGN.md 4/C04"),
+ "C19": ("exhaustive enumeration + rapid generation of (function, argument vector) pairs against direct Go calls with the harness's own conversion table",
+         "Exploration. All 62 generated math.* entries plus 86 synthetic Go functions (every numeric parameter kind, named numeric types, interface{}, slices, variadic, multi-result, trailing error, panicking) are called through ECALFunctionAdapter.Run, and a sample through ECAL source, with every argument vector of length 0-2 (quick) / 0-3, 4 for wide signatures (thorough) over a 22-value universe plus integer-kind boundary values; rapid adds vectors to length 6 with arbitrary floats/strings. Oracle: no panic escapes; result XOR descriptive error; a returned result equals calling the Go function directly with arguments converted by the harness's own table (numbers back as float64, trailing Go error as the error); exact-arity kind-matching in-range numeric calls must succeed.",
+         "Fractional / out-of-range numbers for integer parameters, variadic and non-scalar signatures are only required to give a faithful result or an error (the statement allows a descriptive error). The real plugin loader cannot be reached from outside the package; its wrapper shape is covered by synthetic functions.",
+         "DESIGN.md 4/C19"),
  "C17": ("exhaustive enumeration + rapid random generation of (root, path) pairs against a sentinel-file oracle",
          "Exploration. Every (root form x path) pair over a 7-segment alphabet up to length 4 (quick) / 6 (thorough) is enumerated completely against a directory tree in which every reachable location, inside and outside the root, holds a sentinel naming its own canonical path; random longer paths with hostile segments are added by rapid, both through Resolve and through ECAL import statements. A returned content that names a location outside the lexical root is a violation. Exhaustive within the bound, sampled beyond; no absence proof for longer paths.",
          "Trusts the harness's 10-line stack normaliser for the root only (the content oracle is independent of any normaliser); symlinks are out of scope (the statement says lexically inside).",
